@@ -21,6 +21,7 @@ type specSig struct {
 // loadSpecs reads every spec/*.smt2 file (sorted), concatenates the text and
 // records the signatures of define-fun / declare-fun forms.
 func (e *Engine) loadSpecs(dir string) error {
+	e.specDir = dir
 	files, _ := filepath.Glob(filepath.Join(dir, "*.smt2"))
 	sort.Strings(files)
 	e.specSigs = map[string]*specSig{}
